@@ -54,7 +54,13 @@ pub struct SyncSc {
     pub short_read_pct: u32,
     pub readdir_shuffle: bool,
     pub dst_exists: bool,
+    /// fault batch: make the nth op of this kind (index into FAULT_KINDS) of the copia process
+    /// fail with errno (EIO / ENOSPC / EACCES by nth % 3); None = fault-free
+    #[serde(default)]
+    pub inject: Option<(u8, u32)>,
 }
+
+pub const FAULT_KINDS: [OpKind; 5] = [OpKind::Write, OpKind::Rename, OpKind::Open, OpKind::PipeWrite, OpKind::Spawn];
 
 pub const NAME_PARTS: &[&str] = &[
     "a", "b.txt", "sp ace", "q'uo", "d\"q", "back\\sl", "$dol", "st*r", "qu?", "[br]", "tab\there", "-dash", ".hid", "ünï", "e", "x.tmp", "target",
@@ -193,6 +199,7 @@ pub fn gen_sync(r: &mut Rng, allow_fail_inputs: bool) -> SyncSc {
         short_read_pct: *r.pick(&[0u32, 20]),
         readdir_shuffle: r.coin(),
         dst_exists: r.below(8) != 0,
+        inject: None,
     }
 }
 
@@ -284,6 +291,10 @@ pub fn run_cfg(sc: &SyncSc, salt: u64) -> RunCfg {
     cfg.short_read_pct = sc.short_read_pct;
     cfg.readdir_seed = if sc.readdir_shuffle { Some(sc.seed ^ 0x5EED) } else { None };
     cfg.op_budget = 400_000;
+    if let Some((k, nth)) = sc.inject {
+        let errno = [copia_simworld::fs::EIO, copia_simworld::fs::ENOSPC, copia_simworld::fs::EACCES][nth as usize % 3];
+        cfg.faults.push(Fault::FailOp { target: ProcSel::Role("sync".into()), nth, kind: FAULT_KINDS[k as usize % FAULT_KINDS.len()], errno });
+    }
     cfg
 }
 
@@ -435,6 +446,11 @@ pub fn shrink_sync(sc: &SyncSc) -> Vec<SyncSc> {
     if sc.readdir_shuffle {
         let mut s = sc.clone();
         s.readdir_shuffle = false;
+        out.push(s);
+    }
+    if sc.inject.is_some() {
+        let mut s = sc.clone();
+        s.inject = None;
         out.push(s);
     }
     out
